@@ -129,10 +129,10 @@ Section Part1.
   Qed.
 
   Lemma select_floor : forall cands count x, c_excl c = true -> In x (select S c key trust_of cands count) ->
-    ltb S (unit S (trust_of (n_id x))) (c_min c) = false.
+    ltb S (nan0 S (trust_of (n_id x))) (c_min c) = false.
   Proof.
     intros cands count x Ex H. apply select_eligible in H. unfold elig_node, eligible in H.
-    apply andb_true_iff in H. destruct H as [H _]. rewrite Ex in H. cbn [andb entry e_trust] in H.
+    apply andb_true_iff in H. destruct H as [H _]. rewrite Ex in H. cbn [andb entry e_raw] in H.
     apply negb_true_iff in H. exact H.
   Qed.
 End Part1.
@@ -550,7 +550,7 @@ Section Engine.
   (* storage selections respect the floor of the storage configuration *)
   Lemma engine_storage_floor : forall qc sc trust_of t key count x, c_excl sc = true ->
     In x (engine_select S (Some (qc, sc)) trust_of true t key count) ->
-    ltb S (unit S (trust_of (n_id x))) (c_min sc) = false.
+    ltb S (nan0 S (trust_of (n_id x))) (c_min sc) = false.
   Proof.
     intros qc sc trust_of t key count x E H. rewrite engine_select_storage_eq in H.
     eapply select_floor; [exact E|exact H].
@@ -713,17 +713,19 @@ Section Ranking.
     (e_dist x = e_dist y -> ltb S (e_trust x) (e_trust y) = false).
   Proof. intros cands count x y K Hx Hy. exact (not_misranked S x y (rank_cut S L c key trust_of Kk cands _ x y K Hx Hy)). Qed.
 
-  (* a raw trust below a positive floor, or NaN, is never selected under exclusion *)
-  Lemma floor_raw : forall cands count x, c_excl c = true -> ltb S (zero S) (c_min c) = true ->
+  (* under exclusion a selected peer's raw trust is not below the floor; and if the floor is
+     positive it is a number (a NaN answer is read as 0, which is below a positive floor) *)
+  Lemma floor_raw : forall cands count x, c_excl c = true ->
     In x (select S c key trust_of cands count) ->
-    ltb S (trust_of (n_id x)) (c_min c) = false /\ leb S (trust_of (n_id x)) (trust_of (n_id x)) = true.
+    ltb S (trust_of (n_id x)) (c_min c) = false /\
+    (ltb S (zero S) (c_min c) = true -> leb S (trust_of (n_id x)) (trust_of (n_id x)) = true).
   Proof.
-    intros cands count x Ex Pm H. pose proof (select_floor S c key trust_of cands count x Ex H) as Fl.
-    split.
-    - destruct (ltb S (trust_of (n_id x)) (c_min c)) eqn:E; [|reflexivity].
-      rewrite (unit_below S L _ _ Pm (or_introl E)) in Fl. discriminate.
-    - destruct (leb S (trust_of (n_id x)) (trust_of (n_id x))) eqn:E; [reflexivity|].
-      rewrite (unit_below S L _ _ Pm (or_intror E)) in Fl. discriminate.
+    intros cands count x Ex H. pose proof (select_floor S c key trust_of cands count x Ex H) as Fl.
+    unfold nan0 in Fl. destruct (leb S (trust_of (n_id x)) (trust_of (n_id x))) eqn:E.
+    - split; [exact Fl|reflexivity].
+    - split; [|intro Pm; congruence].
+      destruct (ltb S (trust_of (n_id x)) (c_min c)) eqn:E2; [|reflexivity].
+      apply (L_ltb S L) in E2. destruct E2 as [E2 _]. rewrite (proj1 (L_ok S L _ _ E2)) in E. discriminate.
   Qed.
 End Ranking.
 
@@ -753,13 +755,12 @@ Qed.
 (* ---- the exact-arithmetic instance, in the vocabulary of Q ---- *)
 Lemma storage_floor_exact : forall key (trust_of : N -> Q) cands count x,
   In x (select qnum (for_storage (fun q => q)) key trust_of cands count) ->
-  (SEL_STORAGE_MIN <= unit qnum (trust_of (n_id x)))%Q /\ (1 # 5 <= trust_of (n_id x))%Q.
+  (SEL_STORAGE_MIN <= trust_of (n_id x))%Q /\ (1 # 5 <= trust_of (n_id x))%Q.
 Proof.
   intros key trust_of cands count x H. set (c := for_storage (fun q : Q => q)) in *.
-  pose proof (select_floor qnum c key trust_of cands count x eq_refl H) as A.
-  destruct (floor_raw qnum q_laws c key trust_of cands count x eq_refl eq_refl H) as [B _].
-  cbn [ltb qnum c_min c for_storage] in A, B. apply negb_false_iff in A, B. apply Qle_bool_iff in A, B.
-  split; assumption.
+  destruct (floor_raw qnum q_laws c key trust_of cands count x eq_refl H) as [B _].
+  cbn [ltb qnum c_min c for_storage] in B. apply negb_false_iff in B. apply Qle_bool_iff in B.
+  split; exact B.
 Qed.
 
 Lemma rank_exact : forall (c : scfg) key trust_of cands l1 x l2 y l3,
